@@ -137,9 +137,13 @@ class Taus(object):
 
         E_tau = np.zeros_like(betas)
 
-        E_tau[valid] = tau_cdf_sample(log_e_nu[valid], betas[valid], u)
+        E_tau[valid] = tau_cdf_sample(
+            log_e_nu[valid], betas[valid], None if u is None else u[valid]
+        )
         E_tau[beta_low] = tau_cdf_sample(
-            log_e_nu[beta_low], np.full(betas[beta_low].shape, beta_min), u
+            log_e_nu[beta_low],
+            np.full(betas[beta_low].shape, beta_min),
+            None if u is None else u[beta_low],
         )
         E_tau[beta_high] = np.finfo(np.float32).eps
 
